@@ -130,7 +130,7 @@ int main(int argc, char** argv) {
     R.rule = "zero: one evaluation = one step of dynamic vs static map; proto: one evaluation = one call sequence replayed on a fresh real DynamicRFKickMap; distinct = FNV of case (+history/output)";
     R.sample_every = 400;
     const bool T = R.thorough();
-    part_zero(T ? std::vector<unsigned>{8, 16, 17} : std::vector<unsigned>{8});
-    part_proto(T ? std::vector<unsigned>{8, 16} : std::vector<unsigned>{8}, T ? 9 : 7, 6);
+    part_zero(T ? std::vector<unsigned>{8, 16, 17, 32, 33} : std::vector<unsigned>{8});
+    part_proto(T ? std::vector<unsigned>{8, 16, 17} : std::vector<unsigned>{8}, T ? 12 : 7, T ? 8 : 6);
     return R.finish();
 }
